@@ -135,6 +135,21 @@ def replay_of(c):
             "case": slim(c)}
 
 
+def describe(c):
+    d = "variant %s, mask %s, interval %d ms, backoff %s" % (c["variant"], c["mask"], c["interval_ms"], not c["no_backoff"])
+    if c.get("silence_to"):
+        d += ", silence to %s until %s ms from #%s" % (c["silence_to"], c.get("silence_until"), c.get("silence_from"))
+    if c.get("reverse_to"):
+        d += ", bursts to %s reversed" % c["reverse_to"]
+    if c.get("server_writes"):
+        d += ", server application writes %d records as soon as its handshake returns" % c["server_writes"]
+    if c.get("inject"):
+        i = c["inject"]
+        d += ", %d forged epoch-0 handshake record(s) to the %s (type %d message_seq %d fragment %d+%d/%d) from %d ms" % (
+            len(i), i[0]["to"], i[0]["ht"], i[0]["ms"], i[0]["fo"], i[0]["fl"], i[0]["tl"], i[0]["at"])
+    return d
+
+
 def slim(c):
     d = {k: c.get(k) for k in ("variant", "mask", "interval_ms", "no_backoff", "silence_from", "silence_until", "silence_to",
                                "reverse_to", "inject", "server_writes", "cdone", "sdone", "cerr", "serr", "tdone", "tfault", "data_ok", "mtu", "notes")}
@@ -269,9 +284,11 @@ def _monitor_backoff_floor(c, side):
                         return REPEAT_FRAG + " (%s retransmitted %d ms after its previous timer expiry although %d expiries had " \
                             "passed with nothing but copies of one fragment received; floor %d ms)" % (
                                 side, e["t"] - tlast, k, min(I * 2 ** k, 60000))
+                    floor = min(I * 2 ** k, 60000) if (I < 60000 or nst_phase) else I
                     return "%s retransmitted %d ms after its previous timer expiry although %d expiries had passed with nothing " \
-                           "new received (floor %d ms): the interval was restored by stale data" % (
-                               side, e["t"] - tlast, k, min(I * 2 ** k, 60000))
+                           "new received (floor %d ms for the configured %d ms): the interval was %s" % (
+                               side, e["t"] - tlast, k, floor, I,
+                               "shortened below the configured value" if I >= 60000 else "restored by stale data")
                 k += 1
                 tlast = e["t"]
             elif any(r["k"] == "hs" and r["ht"] == 4 for r in e.get("recs") or []):
@@ -419,6 +436,8 @@ def _leg(chk, prop, leg, test, seed_off, monitor, monitor_name, rule, regenerate
     reported = set()
     for c in cases:
         m = monitor(c, F.get(c["variant"], 1)) if monitor is monitor_discipline else monitor(c)
+        if not m and monitor is not monitor_liveness and c["interval_ms"] < 10 ** 9 and not established(c):
+            m = monitor_liveness(c)      # every scenario with a finite schedule must also complete
         if m:
             if m.startswith(NOT_CH):
                 if NOT_CH in reported:
@@ -439,23 +458,24 @@ def _leg(chk, prop, leg, test, seed_off, monitor, monitor_name, rule, regenerate
                                         {k: (c.get("inject") or [{}])[0].get(k) for k in ("ht", "ms", "fo", "fl", "tl")},
                                         (c.get("inject") or [{}])[0].get("to")), replay_of(c)) or found
                 continue
-            key = (c["variant"], re.split(r" at \d| gaps|: client=| \d+ ms", m)[0][:80])
+            key = (c["variant"], re.split(r" at \d| gaps|: client=| \d+ ms", m)[0][:80], bool(c.get("inject")),
+                   bool(c.get("server_writes")))
             if key in reported:
                 continue
             reported.add(key)
-            found = chk.finding(SITE, {"family": "dtls13", "variant": c["variant"], "monitor": key[1]},
-                                "%s [variant %s, mask %s, interval %d ms, backoff %s, silence %s until %s from #%s]" % (
-                                    m, c["variant"], c["mask"], c["interval_ms"], not c["no_backoff"], c.get("silence_to") or "-",
-                                    c.get("silence_until"), c.get("silence_from")), replay_of(c)) or found
+            sig = {"family": "dtls13", "variant": c["variant"], "monitor": key[1]}
+            if c.get("inject"):
+                sig["injected"] = True
+            if c.get("server_writes"):
+                sig["server_writes"] = True
+            found = chk.finding(SITE, sig, "%s [%s]" % (m, describe(c)), replay_of(c)) or found
     # a trace far longer than anything the unchanged tree produces is not replayed (the term would not fit in coqc):
     # it is judged by the monitors alone
     huge = [c for c in cases if len(c["events"]) > MAX_EVENTS]
     for c in huge[:1]:
         m = monitor_liveness(c) or ("%d events in one handshake (limit for replay %d)" % (len(c["events"]), MAX_EVENTS))
         found = chk.finding(SITE, {"family": "dtls13", "variant": c["variant"], "monitor": "trace too long to replay"},
-                            "%s [variant %s, mask %s, interval %d ms, backoff %s, silence %s until %s from #%s]" % (
-                                m, c["variant"], c["mask"], c["interval_ms"], not c["no_backoff"], c.get("silence_to") or "-",
-                                c.get("silence_until"), c.get("silence_from")), dict(replay_of(c), events=len(c["events"]))) or found
+                            "%s [%s]" % (m, describe(c)), dict(replay_of(c), events=len(c["events"]))) or found
     cases = [c for c in cases if len(c["events"]) <= MAX_EVENTS]
     proved = _prove(chk, prop, found, regenerate)
     n_bad = 0
@@ -464,12 +484,13 @@ def _leg(chk, prop, leg, test, seed_off, monitor, monitor_name, rule, regenerate
         if okm:
             bad = accept(chk, leg, cases)
             n_bad = len(bad or [])
-            for i in (bad or [])[:1]:
+            judged = [(i, (monitor(cases[i], F.get(cases[i]["variant"], 1)) if monitor is monitor_discipline
+                           else monitor(cases[i])) or monitor_liveness(cases[i])) for i in (bad or [])[:200]]
+            judged.sort(key=lambda x: (x[1] is None, x[0]))      # a mismatch that a monitor also condemns comes first
+            for i, m in judged[:1]:
                 c = cases[i]
-                m = (monitor(c, F.get(c["variant"], 1)) if monitor is monitor_discipline else monitor(c)) or monitor_liveness(c)
                 chk.finding(SITE, {"family": "dtls13", "variant": c["variant"], "monitor": "model-mismatch"},
-                            "DTLS 1.3 trace not accepted by the Hs/Hs13 model [variant %s, mask %s, interval %d ms, backoff %s]%s" % (
-                                c["variant"], c["mask"], c["interval_ms"], not c["no_backoff"], (": " + m) if m else ""),
+                            "DTLS 1.3 trace not accepted by the Hs/Hs13 model [%s]%s" % (describe(c), (": " + m) if m else ""),
                             dict(replay_of(c), correspondence="Hs.Hs13Run.hs13_ok", model_says=diagnose(c)[-1500:]),
                             no_input=(m is None and not found))
     if not proved and not found:
